@@ -143,6 +143,10 @@ def r3_fuse(ctx):
 
             def func(run, a, k, n, f, _acc=accepts):
                 calls.append(a)
+                it_ = f.locals.get("inputs")
+                if it_ is not None and len(a) > 2 and isinstance(a[2], Obj) and a[2].fields.get("inputs") is it_.value:
+                    run.model_aliased = True
+                    run.effect("alias", n, f, what="the node handed to the fusion callback has, as its inputs, the very dict the loop iterates")
                 return FUSED if _acc else None
             env = {"self.counter": {P: consumers, nd: 5}, "self.func": ModelFn("fusion callback", func)}
             paths = Interp(repo).explore(fi, env=env, args={"node": nd, "inputs": {"x": _out(P)}})
@@ -153,6 +157,11 @@ def r3_fuse(ctx):
                 if calls and not (len(calls[0]) == 4 and getattr(calls[0][0], "name", "") == P.name and calls[0][1] == "0" and getattr(calls[0][2], "name", "") == nd.name and calls[0][3] == "x"):
                     ctx.violation("C11.R3", fi.qual, loc(fi), "fusion callback arguments",
                                   f"{atoms}: the fusion callback is called with {vkey(calls[0])[:120]}, documented as (parent, parent output, current node, current input)", row=atoms)
+                    continue
+                if any(e.kind == "alias" for e in p.effects):
+                    ctx.violation("C11.R3", fi.qual, loc(fi), "callback may edit the node it is given",
+                                  f"{atoms}: while the loop iterates over the transformed inputs, the fusion callback is handed a node whose `inputs` is that same dict: a "
+                                  f"callback that folds the parent into the child in place (documented use) changes the dict under iteration — RuntimeError instead of a graph", row=atoms)
                     continue
                 rv = p.exit[1] if p.exit[0] == "return" else None
                 want_call = consumers <= 1
